@@ -112,6 +112,7 @@ type Sim struct {
 	quietReset     *ResetRec
 	quietRoot      *CReq
 	burstDone      bool
+	quietEv        *quietEvent
 	stop           *stopState
 	calm           bool
 	pendingAcc     []pendingAccess
@@ -384,7 +385,25 @@ var knownKeys = func() map[string]bool {
 // property as well (C11.b, C11.c).
 func (s *Sim) mirrorLocked(v Violation) {
 	prop := strings.TrimSuffix(s.Cfg.Prop, "base")
-	if prop != "C11" || s.Stats["fault.client_disconnect"] == 0 || knownKeys[v.Key()] {
+	if knownKeys[v.Key()] {
+		return
+	}
+	if prop == "C19" && (s.Cfg.Gw.ResetThrottle > 0 || s.Cfg.Gw.ReferenceThrottle > 0) {
+		// C19.b: with a throttle configured every governed request is sent
+		// eventually: a re-check or re-fetch that never comes, or a client
+		// request that is never answered, is a stalled throttle
+		if (v.Prop == "C06" && v.Clause == "a") || (v.Prop == "C12" && v.Shape == "refetch-missing") || (v.Prop == "C07" && v.Clause == "b") {
+			m := Violation{Prop: "C19", Clause: "b", Shape: v.Prop + "." + v.Clause + "-" + v.Shape, Msg: fmt.Sprintf("with resetThrottle=%d referenceThrottle=%d: %s", s.Cfg.Gw.ResetThrottle, s.Cfg.Gw.ReferenceThrottle, v.Msg), Step: v.Step}
+			for _, o := range s.Viols {
+				if o.Key() == m.Key() {
+					return
+				}
+			}
+			s.Viols = append(s.Viols, m)
+		}
+		return
+	}
+	if prop != "C11" || s.Stats["fault.client_disconnect"] == 0 {
 		return
 	}
 	clause := ""
